@@ -135,15 +135,76 @@ def rule_concat_once(db: ProgramDB) -> List[Instance]:
             last_is_sources = bool(writes) and writes[-1][1] == bp
         # (c) the row does not bind the variables the concatenation ranges over (they have no single value after it): it is
         # not built from every id the child's rows carry
-        built_from_all = False
-        for n2 in own_nodes(m.node):
-            if isinstance(n2, (ast.DictComp,)) and any("items()" in unparse(g.iter) for g in n2.generators):
-                # {k: … for k, v in <accumulator of all ids>.items()}
-                built_from_all = True
+        # key provenance of the row: its keys are `self._id_` and those of the incoming binding; a dict is 'clean' when every key
+        # ever stored into it is `self._id_`
+        def store_keys(name: str) -> List[str]:
+            ks = []
+            for n2 in own_nodes(m.node):
+                if isinstance(n2, ast.Subscript) and isinstance(n2.value, ast.Name) and n2.value.id == name:
+                    ks.append(unparse(n2.slice))
+                if isinstance(n2, ast.Call) and call_attr(n2) in ("update", "setdefault") and isinstance(n2.func.value, ast.Name) and n2.func.value.id == name:
+                    ks.append("<" + unparse(n2)[:30] + ">")
+            return ks
+
+        def clean_dict(name: str) -> bool:
+            return all(k == "self._id_" for k in store_keys(name))
+
+        def keys_ok(e: ast.AST, depth=0) -> Optional[bool]:
+            if depth > 4:
+                return None
+            if isinstance(e, ast.Name):
+                if e.id == bp:
+                    return True
+                ds = [n2.value for n2 in own_nodes(m.node) if isinstance(n2, ast.Assign) and any(isinstance(t, ast.Name) and t.id == e.id for t in n2.targets)]
+                if not ds:
+                    return None
+                r = True
+                for d in ds:
+                    if isinstance(d, ast.Call) and dotted(d.func) in ("defaultdict", "dict", "OrderedDict") and not (d.args and dotted(d.func) != "defaultdict"):
+                        k = clean_dict(e.id)
+                    else:
+                        k = keys_ok(d, depth + 1)
+                        if k:
+                            k = all(x == "self._id_" or x.startswith("<") for x in store_keys(e.id))
+                    if k is None:
+                        return None
+                    r = r and k
+                for n2 in own_nodes(m.node):
+                    if isinstance(n2, ast.Call) and call_attr(n2) == "update" and isinstance(n2.func.value, ast.Name) and n2.func.value.id == e.id and n2.args:
+                        k = keys_ok(n2.args[0], depth + 1)
+                        if k is None:
+                            return None
+                        r = r and k
+                return r
+            if isinstance(e, ast.Dict):
+                r = True
+                for k_, v_ in zip(e.keys, e.values):
+                    if k_ is None:
+                        k = keys_ok(v_, depth + 1)
+                        if k is None:
+                            return None
+                        r = r and k
+                    elif unparse(k_) != "self._id_":
+                        r = False
+                return r
+            if isinstance(e, ast.Call) and dotted(e.func) in ("dict", "copy") and len(e.args) == 1:
+                return keys_ok(e.args[0], depth + 1)
+            if isinstance(e, ast.DictComp) and len(e.generators) == 1:
+                g = e.generators[0]
+                src = g.iter.func.value if isinstance(g.iter, ast.Call) and call_attr(g.iter) in ("items", "keys") else g.iter
+                return keys_ok(src, depth + 1)
+            return None
+        verdict_keys = keys_ok(yv.value)
+        built_from_all = verdict_keys is False
+        if verdict_keys is None:
+            out.append(inst("CONCAT-ONCE", UNDECIDED, m, "Concatenate._evaluate__[the variables it ranges over stay unbound]",
+                            f"could not derive where the keys of the row `{unparse(yv.value)[:50]}` come from", line=y.lineno))
+            continue
         out.append(inst("CONCAT-ONCE", VIOLATION if built_from_all else HOLDS, m, "Concatenate._evaluate__[the variables it ranges over stay unbound]",
-                        "the row maps every id the child's rows carry to the list of its values: a variable of the concatenated expression is then "
-                        "'bound' to a list, and any other expression on that variable in the same condition (a second concatenation over the same "
-                        "parent, bx.name == 'B1') is evaluated on the list and fails" if built_from_all else
+                        "the row carries ids taken from the child's rows: a variable of the concatenated expression comes out of the concatenation "
+                        "'bound' (to a list of its values, or to the value of the last child row), and any other expression on that variable in the same "
+                        "condition (a second concatenation over the same parent, bx.name == 'B1') is evaluated on that instead of ranging over the variable"
+                        if built_from_all else
                         "the row binds the combined list (and what was bound before), not the variables the concatenation ranges over", line=y.lineno))
         out.append(inst("CONCAT-ONCE", HOLDS if last_is_sources else VIOLATION, m, "Concatenate._evaluate__[incoming bindings handed on unchanged]",
                         f"the incoming binding `{bp}` is written over the aggregated row last" if last_is_sources else
